@@ -18,3 +18,13 @@ Fixpoint zl_eqb (a b : list Z) : bool :=
   end.
 Definition agree11 (c : Z * Z * Z * list Z) : bool :=
   let '(_, _, _, r) := c in zl_eqb r (model11 c).
+
+(* textual layer, IPv4: (string, Some (addr, plen) | None = rejected) *)
+Require Import CCP.Lib.PyStr CCP.Model.IPText.
+Definition model11t (c : list N * option (Z * Z)) : option (Z * Z) := v4_parse (fst c).
+Definition agree11t (c : list N * option (Z * Z)) : bool :=
+  match snd c, model11t c with
+  | None, None => true
+  | Some (a, p), Some (b, q) => (a =? b) && (p =? q)
+  | _, _ => false
+  end.
